@@ -86,6 +86,13 @@ Theorem c07_nas_mac_is_spec :
 Proof. exact nas_mac_is_spec. Qed.
 Print Assumptions c07_nas_mac_is_spec.
 
+(* a MAC that is returned is four octets *)
+Theorem c07_mac_length :
+  forall alg key count bearer dir msg t,
+    nas_mac alg key count bearer dir msg = Some t -> alg = 1 \/ alg = 2 -> length t = 4%nat.
+Proof. exact nas_mac_len4. Qed.
+Print Assumptions c07_mac_length.
+
 (* NEA0 leaves the message unchanged *)
 Theorem c07_nea0_identity :
   forall key count bearer dir msg,
